@@ -105,7 +105,8 @@ let verdict case impl =
     else begin
       let model = Printf.sprintf "model=%s;%s;%s;%s" m_slots m_chunks m_token m_pk in
       (* the property on the implementation's own outputs *)
-      let tok_viol o = o <> "na" && o <> "err:ser" && not (prop_token_ok p ncols wire values (parse_token_opt o)) in
+      let tok_viol o = o <> "na" && (if o = "err:ser" then key_okb ncols wire values
+                                     else not (prop_token_ok p ncols wire values (parse_token_opt o))) in
       let pk_viol =
         o_pk <> "na" && key_okb ncols wire values &&
         (let comps = spec_components wire values in
@@ -142,7 +143,11 @@ let verdict case impl =
       | Some t when o_tok <> hex_of_z t -> "viol spec=" ^ hex_of_z t ^ " model=" ^ m_from ^ ";" ^ m_tok
       | _ -> "diff model=" ^ m_from ^ ";" ^ m_tok
     end
-  | ("E" :: _), ("error" :: _) -> "ok not-run"   (* the scenario could not start: counted and capped by checks/c03.py *)
+  | ("E" :: _), ("error" :: ("cluster-start" | "session") :: _) ->
+    "ok not-run"   (* the scenario could not start (environment): counted and capped by checks/c03.py *)
+  | ("E" :: _), ("error" :: "prepare" :: _) ->
+    "diff prepare-failed"   (* Session::prepare failing against a healthy mock is implementation behaviour *)
+  | (("K" | "R") :: _), ("notrun" :: _) -> "ok not-this-build"
   | ["E"; mode; rows; table; key], [o_part; o_tok] ->
     (* end to end: mock cluster metadata -> Session::prepare -> partitioner of the statement -> token *)
     let cs s = chars_of_string s in
